@@ -14,7 +14,7 @@ package main
 //  2. Roles.  Driver methods: SendProbe = sender/mid, ReceiveProbe = receiver/mid; ReadHandshake,
 //     FakeHandshake and every function containing a composite literal of the struct (constructor) =
 //     main/init; Close = main/final; each closed under calls to methods on the same receiver, inlined
-//     per call site up to depth 3 (deeper = generation error), the callee inheriting the caller's role
+//     per call site up to depth 6 (deeper = generation error), the callee inheriting the caller's role
 //     and lock set.  Any other function that touches the struct = main/mid (assume the worst).
 //     Engine functions: top-level statements before the first goroutine launch = main/init, after the
 //     statement containing `.Wait()` on a synchronisation object = main/final, between = main/mid.  A
@@ -534,8 +534,8 @@ func (g *accGen) driver(rel, S string) {
 			if !ok || !isObj(s.X) || methods[s.Sel.Name] == nil {
 				return false
 			}
-			if depth >= 3 {
-				g.errf(c.Pos(), "call depth > 3 below a role entry point (%s)", s.Sel.Name)
+			if depth >= 6 {
+				g.errf(c.Pos(), "call depth > 6 below a role entry point (%s)", s.Sel.Name)
 			} else {
 				walk(methods[s.Sel.Name], role, phase, depth+1, locks)
 			}
@@ -690,8 +690,8 @@ func (g *accGen) engine(relFile, funcName string) {
 		for _, a := range c.Args {
 			w.expr(a, locks)
 		}
-		if w.depth >= 3 {
-			g.errf(c.Pos(), "local closure call depth > 3")
+		if w.depth >= 6 {
+			g.errf(c.Pos(), "local closure call depth > 6")
 		} else {
 			iw := *w
 			iw.depth++
